@@ -3,8 +3,12 @@
 (*     Fiber(len) | Fiber Fused Fiber | Fiber UserAmp(full|partial|none) Fiber | RamanFiber                     *)
 (*     (+ Fiber UserAmp(full) RamanFiber: the one way a Raman span survives the real design, see the C08 report) *)
 (*     (+ Fiber(20 km) with a user att_in of 3 dB: padding completes, never replaces, a user attenuator)           *)
-(* len in {0.05, 20, 80, 151, 400, 1200} km; Span settings padding 0/10 dB x EOL 0/1 dB x max_length 100/150 km *)
-(* x power/gain mode.  The reverse direction of a link carries the mirrored chain.                              *)
+(*     (+ spliced chains whose first fibre carries a user att_in, + RamanFiber next to a plain fibre,              *)
+(*      + fibres whose loss coefficient is a per-frequency table, one of them longer than the maximum)            *)
+(* len in {0.05, 20, 80, 95, 151, 400, 1200} km; Span settings padding 0/10 dB x EOL 0/1 dB x max_length         *)
+(* 80/150 km (thorough: 80/100/150; 80 km is below the 90 km target span, 95 km then lies between the maximum    *)
+(* and the length at which two spans reach the 50 km minimum) x power/gain mode.                                 *)
+(* The reverse direction of a link carries the mirrored chain (a plain 80 km fibre opposite a Raman chain).      *)
 (* Tier selects how many chain combinations are used on the 3- and 4-ROADM shapes.                              *)
 EXTENDS DesignStructure, Json
 
@@ -14,32 +18,38 @@ dB == 1000000
 km == 1000
 
 Blank(name, type) == [name |-> name, type |-> type, succ |-> {}, pred |-> {}, len |-> 0, coef |-> 0, variety |-> "",
-                      conIn |-> NONE, conOut |-> NONE, attIn |-> NONE, loss |-> 0, sub |-> <<>>, origin |-> ""]
+                      conIn |-> NONE, conOut |-> NONE, attIn |-> NONE, loss |-> 0, sub |-> <<>>, origin |-> "", coefTab |-> <<>>]
 \* chain element descriptors
 F(l) == [t |-> "Fiber", len |-> l, k |-> "", att |-> 0]
+FQ(l) == [t |-> "Fiber", len |-> l, k |-> "perfreq", att |-> 0]     \* fibre whose loss coefficient is given per frequency
 FP(l, a) == [t |-> "Fiber", len |-> l, k |-> "", att |-> a]         \* fibre with a user-set padding attenuator att_in
 R(l) == [t |-> "RamanFiber", len |-> l, k |-> "", att |-> 0]
 X    == [t |-> "Fused", len |-> 0, k |-> "", att |-> 0]
 A(k) == [t |-> "Edfa", len |-> 0, k |-> k, att |-> 0]
 
+LossTable == <<<<191000000, 210>>, <<193500000, 200>>, <<196500000, 190>>>>       \* <<MHz, mdB/km>>
 UserSub(k) == IF k = "full" THEN [variety |-> "std_medium_gain", gain |-> 18 * dB, voa |-> dB, dp |-> dB]
               ELSE IF k = "partial" THEN [variety |-> "std_medium_gain", gain |-> NONE, voa |-> NONE, dp |-> NONE]
               ELSE NoSub
 Concrete(d, name) ==
-    IF d.t = "Fiber" THEN [Blank(name, "Fiber") EXCEPT !.len = d.len, !.coef = 200, !.variety = "SSMF", !.attIn = d.att]
+    IF d.t = "Fiber" THEN [Blank(name, "Fiber") EXCEPT !.len = d.len, !.coef = 200, !.variety = "SSMF", !.attIn = d.att,
+                               !.coefTab = IF d.k = "perfreq" THEN LossTable ELSE <<>>]
     ELSE IF d.t = "RamanFiber" THEN [Blank(name, "RamanFiber") EXCEPT !.len = d.len, !.coef = 200, !.variety = "SSMF",
                                         !.attIn = 0, !.conIn = dB \div 2, !.conOut = dB \div 2]
     ELSE IF d.t = "Fused" THEN [Blank(name, "Fused") EXCEPT !.loss = dB]
     ELSE [Blank(name, "Edfa") EXCEPT !.variety = UserSub(d.k).variety, !.sub = <<UserSub(d.k)>>]
 
-Lens == {50, 20 * km, 80 * km, 151 * km, 400 * km, 1200 * km}
+Lens == {50, 20 * km, 80 * km, 95 * km, 151 * km, 400 * km, 1200 * km}
 Plain  == {<<F(l)>> : l \in Lens}
 Spliced == {<<F(a), X, F(b)>> : a \in {50, 20 * km, 151 * km}, b \in {50, 80 * km, 400 * km}}
 WithAmp == {<<F(p[1]), A(k), F(p[2])>> : p \in {<<20 * km, 80 * km>>, <<80 * km, 50>>, <<151 * km, 20 * km>>},
                                          k \in {"full", "partial", "none"}}
-Raman  == {<<R(80 * km)>>, <<F(80 * km), A("full"), R(80 * km)>>}
-Padded == {<<FP(20 * km, 3 * dB)>>}
-Chains == Plain \cup Spliced \cup WithAmp \cup Raman \cup Padded
+Raman  == {<<R(80 * km)>>, <<F(80 * km), A("full"), R(80 * km)>>, <<R(80 * km), F(20 * km)>>, <<F(20 * km), R(80 * km)>>}
+\* user-set padding attenuators: alone, and on the first / (mirrored) last fibre of a spliced span shorter than the padding
+Padded == {<<FP(20 * km, 3 * dB)>>, <<FP(20 * km, 3 * dB), X, F(50)>>, <<FP(50, 3 * dB), X, F(20 * km)>>,
+           <<FP(50, 2 * dB), X, FP(50, dB)>>}
+PerFreq == {<<FQ(151 * km)>>, <<FQ(20 * km), X, F(80 * km)>>}
+Chains == Plain \cup Spliced \cup WithAmp \cup Padded \cup PerFreq
 \* representatives used where the full product would be too large
 Reps   == {<<F(50)>>, <<F(80 * km)>>, <<F(400 * km)>>, <<F(20 * km), X, F(50)>>, <<F(151 * km), X, F(80 * km)>>,
            <<F(20 * km), A("none"), F(80 * km)>>, <<F(151 * km), A("full"), F(20 * km)>>, <<F(80 * km), A("partial"), F(50)>>}
@@ -75,13 +85,15 @@ Star(c, d, e)  == AddLink(AddLink(AddLink(Sites(4), 2, 1, c), 2, 3, d), 2, 4, e)
 Setting(pad, eol, maxl, pm) == [padding |-> pad * dB, eol |-> eol * dB, maxLen |-> maxl * km, powerMode |-> pm,
                                 conIn |-> 300000, conOut |-> 400000,
                                 lib |-> {"std_low_gain", "std_medium_gain", "std_high_gain"}]
-AllSettings == {Setting(p, e, m, pm) : p \in {0, 10}, e \in {0, 1}, m \in {100, 150}, pm \in BOOLEAN}
+MaxLens == IF Tier = "quick" THEN {80, 150} ELSE {80, 100, 150}
+AllSettings == {Setting(p, e, m, pm) : p \in {0, 10}, e \in {0, 1}, m \in MaxLens, pm \in BOOLEAN}
 \* strength-3 half fraction of the 16 settings (even parity of the four binary factors)
-HalfSettings == {Setting(p, e, m, ((p \div 10) + e + ((m - 100) \div 50)) % 2 = 1) : p \in {0, 10}, e \in {0, 1}, m \in {100, 150}}
-FewSettings == {Setting(10, 0, 150, TRUE), Setting(0, 1, 100, FALSE), Setting(10, 1, 100, TRUE), Setting(0, 0, 150, FALSE)}
+HalfSettings == {Setting(p, e, m, ((p \div 10) + e + (IF m = 150 THEN 1 ELSE 0)) % 2 = 1) : p \in {0, 10}, e \in {0, 1}, m \in {80, 150}}
+FewSettings == {Setting(10, 0, 150, TRUE), Setting(0, 1, 80, FALSE), Setting(10, 1, 80, TRUE), Setting(0, 0, 150, FALSE)}
 
 Graphs == {Pair(c) : c \in Chains}
-GraphsHalf == IF Tier = "quick" THEN {} ELSE {Line3(c, d) : c \in Chains \ Raman, d \in Chains \ Raman}
+\* a Raman estimation costs ~0.3 s in the real code: the Raman chains run under the half fraction of the settings
+GraphsHalf == {Pair(c) : c \in Raman} \cup (IF Tier = "quick" THEN {} ELSE {Line3(c, d) : c \in Chains, d \in Chains})
 GraphsFew == IF Tier = "quick"
              THEN {Line3(c, d) : c \in Reps, d \in Reps} \cup {Tri(c, d, e) : c \in Few, d \in Few, e \in {<<F(80 * km)>>}}
              ELSE {Tri(c, d, e) : c \in Reps, d \in Reps, e \in Few} \cup {Star(c, d, e) : c \in Reps, d \in Reps, e \in Few}
@@ -92,7 +104,7 @@ MCCases == {[g |-> x, s |-> s] : x \in Graphs, s \in AllSettings}
 
 \* B2: one line per enumerated case (printed for the initial state of its behaviour); the harness renders it as
 \* topology JSON + equipment overrides and runs the real designed_network
-Compact(e) == [n |-> e.name, t |-> e.type, l |-> e.len, c |-> e.coef, v |-> e.variety, ci |-> e.conIn, co |-> e.conOut, ai |-> e.attIn,
+Compact(e) == [n |-> e.name, t |-> e.type, l |-> e.len, c |-> e.coef, v |-> e.variety, ci |-> e.conIn, co |-> e.conOut, ai |-> e.attIn, ct |-> e.coefTab,
                lo |-> e.loss, u |-> e.sub, s |-> e.succ]
 \* CONSTRAINT of the enumeration-only run (C17): keep the initial states, do not rewrite
 InitialOnly == phase = "split" /\ seen = {} /\ g = inp
